@@ -29,4 +29,11 @@ void xfree(void *ptr);
 
 void GetNProcessor(size_t *nprocs_online, size_t *nprocs_max);
 
+#ifdef LIBSCIENTIFIC_VERIF
+/* verification hooks (add-only, compiled only with -DLIBSCIENTIFIC_VERIF) */
+extern size_t verif_nproc_override;       /* > 0: value reported by GetNProcessor */
+extern void (*verif_rng_yield)(int kind);  /* called at entry of srand_/rand_/randInt/randDouble */
+extern void (*verif_nipals_tick)(int site); /* called at the top of every NIPALS while(1) body */
+#endif
+
 #endif
